@@ -171,6 +171,7 @@ IGN = ("unbuildable", "unavailable", "(real-input-rejected)")
 
 
 def check_linear(case):
+    LO.set_container(case.get("ct"))
     r = R()
     sp, dt = case["tree"], case["dtype"]
     allf = lin_failures(sp, dt, case["aseed"])
@@ -215,6 +216,7 @@ class Sim:
         self.equal_layouts = set()
         self.consumed = False
         warnings.simplefilter("ignore")
+        LO.set_container(case.get("ct"))
         try:
             self.op = LO.build(self.sp)
         except Exception:
@@ -372,7 +374,7 @@ def make_machine(col):
 
         @initialize(c=LO.st_tree(max_depth=1))
         def init(self, c):
-            self.case = {"tree": c["tree"], "dtype": c["dtype"], "ops": [], "part": "history",
+            self.case = {"tree": c["tree"], "dtype": c["dtype"], "ct": c.get("ct"), "ops": [], "part": "history",
                          "prelude": getattr(col, "prelude", None)}
             self.sim = Sim(self.case)
 
